@@ -1,4 +1,5 @@
 """C06 - only genuine Switcher broadcasts are accepted; anything else is ignored quietly (DESIGN.md 4/C06)"""
+from .common import frame_ok as _frame_ok
 import z3
 
 from pyvc.sym import Seq, Elems
@@ -88,11 +89,12 @@ def units(tier):
             ob = outcome_of(lambda: ip.call_function(func(PARSE), [cb, m], {}, ctx))
             ctx._eff = effects(ctx, ob)
             base = f"{PROP}/unknown_model_len_{n}"
-            return [Obligation(base + "/assigns_nothing", ctx, not ctx.ghost.heap_writes and not ctx.ghost.module_writes,
+            return [Obligation(base + "/assigns_nothing", ctx, _frame_ok(ctx)[0],
                                note=str(ctx.ghost.module_writes[:2])),
                     Obligation(base + "/no_exception", ctx, ob[0] == "ret", note=str(ob[1]) if ob[0] == "exc" else ""),
                     Obligation(base + "/no_device", ctx, len(ctx.ghost.callback_calls) == 0),
-                    Obligation(base + "/one_unknown_device_warning", ctx, ctx.ghost.warnings == [WARNING])]
+                    Obligation(base + "/one_unknown_device_warning", ctx, len(ctx.ghost.warnings) == 1 and isinstance(ctx.ghost.warnings[0], str)
+                               and "unknown" in ctx.ghost.warnings[0].lower())]
         u[f"unknown_model_{n}"] = Unit(f"unknown_model_{n}", PROP, unknown, functions=[PARSE, B + "DatagramParser.get_device_type"], witness=eff_wit)
 
     def canary(ip, ctx):
